@@ -481,6 +481,12 @@ def run(ctx):
         else:
             nodes = gen_db.rand_gff3_graph(r, n=r.randrange(3, 12), dangling=False)
             lines = gen_db.graph_lines(nodes)
+            if i % 3 != 1:
+                # a four-level chain c19a <- c19b <- c19c <- c19d (relatives three levels apart exist)
+                lines += [gen_db.gff_line("chr1", ft_, 5000 + 10 * k_, 5900 - 10 * k_, "+",
+                                          [("ID", [id_])] + ([("Parent", [par_])] if par_ else []))
+                          for k_, (id_, ft_, par_) in enumerate([("c19a", "gene", None), ("c19b", "mRNA", "c19a"),
+                                                                 ("c19c", "exon", "c19b"), ("c19d", "exon_part", "c19c")])]
             if i % 3 == 0:
                 # ids that LOOK generated (ID=exon_1, exon_2: the stored counters are behind them) on overlapping exons, so
                 # that merge() / children_bp(merge=True) really merge features of that type
@@ -497,6 +503,7 @@ def run(ctx):
         if db is None:
             continue
         db.conn.commit(); db.conn.close()
+        logical_before = logical_dump(dbfn)              # before ANY FeatureDB is opened on the finished file
         before = dbside.dump(gffutils.FeatureDB(dbfn))
         db = gffutils.FeatureDB(dbfn)
         stmts = []
@@ -511,11 +518,25 @@ def run(ctx):
         if writes:
             res.oracle_failures.append(("a read-style method issued a write statement",
                                         {"lines": lines, "calls": calls, "statements": writes[:5]}))
+        # relatives three levels away, asked for with an explicit level (a four-level chain is part of some files)
+        if "c19a" in ids:
+            try:
+                list(db.children("c19a", level=3)); list(db.parents("c19d", level=3)); list(db.children("c19a", level=4))
+                calls = calls + ["children(level=3)", "parents(level=3)"]
+            except Exception as ex:
+                res.oracle_failures.append(("children()/parents() with level=3 raised %r" % ex, {"lines": lines}))
+            writes = [s for s in stmts if s.strip().split(None, 1)[0].lower() in WRITE_WORDS]
+            if writes:
+                res.oracle_failures.append(("a read-style method issued a write statement",
+                                            {"lines": lines, "calls": calls, "statements": writes[:5]}))
         db.conn.close()
         after = dbside.dump(gffutils.FeatureDB(dbfn))
         if after != before:
             res.oracle_failures.append(("content after reopening differs after read-style calls only",
                                         {"lines": lines, "calls": calls}))
+        elif logical_dump(dbfn) != logical_before:
+            res.oracle_failures.append(("opening the finished database and read-style calls changed the file's content "
+                                        "(schema objects / indexes / statistics / rows)", {"lines": lines, "calls": calls}))
         if len(res.samples) < 2:
             res.sample({"calls": calls, "statements_seen": len(stmts)})
         # model: import the same text, dump, (reads are the identity on the persistent state), reopen, dump
